@@ -319,6 +319,80 @@ def c_hash_key(u):
     return sorted(set(probs))
 
 
+KEY_FIELDS = ('__name__', '__module__', '__ibmodule__')
+
+
+def _effects_of(mod, cls_name, meth):
+    """(writes a key component of self, may hash self) for Class.meth, from its
+    own path summaries; one level of `Other.__init__(self, ..)` is followed"""
+    from ..sympath import summaries as _S
+    from .sem import nt as _nt
+    try:
+        f = find_def(mod, '%s.%s' % (cls_name, meth))
+    except AnalysisError:
+        return None
+    writes = hashes = False
+    for ps in _S(f, normal_only=False):
+        for e in ps.events:
+            if e.kind == 'store' and isinstance(e.r, ast.Attribute) and \
+                    _nt(e.r.value) == 'self':
+                if e.r.attr in KEY_FIELDS:
+                    writes = True
+                if e.r.attr == '__bases__':
+                    hashes = True         # the setter subscribes self to each base
+            if e.kind == 'call' and isinstance(e.r, ast.Call):
+                t = _nt(e.r)
+                if t == 'hash(self)' or (
+                        isinstance(e.r.func, ast.Attribute) and
+                        e.r.func.attr in ('subscribe', 'add', 'setdefault') and
+                        any(_nt(a) == 'self' for a in e.r.args)):
+                    hashes = True
+            if e.kind == 'store' and isinstance(e.r, ast.Subscript) and \
+                    _nt(e.r.slice) == 'self':
+                hashes = True
+    return writes, hashes
+
+
+def key_final_before_hash(rep, mod, rule):
+    from ..sympath import summaries as _S, normal as _N
+    from .sem import nt as _nt
+    f = find_def(mod, 'InterfaceClass.__init__')
+    probs = []
+    n_w = n_h = 0
+    for ps in _N(_S(f)):
+        first_hash = None
+        for k, e in enumerate(ps.events):
+            w = h = False
+            if e.kind == 'store' and isinstance(e.r, ast.Attribute) and \
+                    _nt(e.r.value) == 'self':
+                w = e.r.attr in KEY_FIELDS
+                h = e.r.attr == '__bases__'
+            elif e.kind == 'call' and isinstance(e.r, ast.Call):
+                fn = e.r.func
+                if isinstance(fn, ast.Attribute) and isinstance(fn.value, ast.Name) \
+                        and e.r.args and _nt(e.r.args[0]) == 'self':
+                    eff = _effects_of(mod, fn.value.id, fn.attr)
+                    if eff is not None:
+                        w, h = eff
+                elif _nt(e.r) == 'hash(self)':
+                    h = True
+            if h and first_hash is None:
+                first_hash = _nt(e.r)[:50]
+                n_h += 1
+            if w:
+                n_w += 1
+                if first_hash is not None:
+                    probs.append('`%s` writes a component of the key after `%s` could '
+                                 'already have hashed (and memoised the hash of) the '
+                                 'new interface' % (_nt(e.r)[:50], first_hash))
+    rep.require(n_w >= 1 and n_h >= 1, 'InterfaceClass.__init__: no key writer / no '
+                'hashing step recognised (%d/%d)' % (n_w, n_h))
+    rep.check(rule, 'InterfaceClass.__init__', not probs,
+              'every writer of (__name__, __module__) runs before the first step that '
+              'can hash the interface' if not probs else
+              {'problems': sorted(set(probs))[:3]}, construct='key-final', node=f)
+
+
 def run(rep):
     repo = rep.repo
     mod = repo.module('interface.py')
@@ -329,6 +403,11 @@ def run(rep):
     rep.rule('R12.2', 'hash key = equality key: hash of the tuple (__name__, '
              '__module__), same components and order, in Python and C; the '
              'memo is written only there', floor=2)
+    rep.rule('R12.5', 'the key is final before the hash can be memoised: in the '
+             'constructor of an interface every step that writes a component of the '
+             'key (__name__, __module__) comes before the first step that can hash '
+             'the new object (linking it to its bases makes it a key of their '
+             'dependents mapping)', floor=1)
     rep.rule('R12.3', 'Implements is orderable together with interfaces (same '
              'mixin) and keeps identity equality/hash; its name is a function '
              'of __module__/__name__ only', floor=3)
@@ -378,6 +457,9 @@ def run(rep):
     ccheck(rep, 'R12.2', 'IB__hash__', ok and set(writers) <= {'IB__hash__'},
            'hashes PyTuple_Pack(2, self->__name__, self->__module__); memo '
            'written by %s %s' % (sorted(set(writers)), cprobs[:3]), construct='hash-key')
+
+    # ---- R12.5 ---------------------------------------------------------------
+    key_final_before_hash(rep, mod, 'R12.5')
 
     # ---- R12.3 ---------------------------------------------------------------
     imp = find_def(dmod, 'Implements')
